@@ -130,8 +130,9 @@ CLAIMS = {
              "solver and copies only its result; every store into the solution vector is 0, a sign-guarded copy, or a clamped trial value; the "
              "prefix sum has the row-major affine forms of the evaluator's layout with j from 1 and nothing writes the output afterwards; the "
              "lower-triangular change of basis is applied to basis and penalty of the same dimension; the solver's factor bookkeeping reads no "
-             "moved or released CHOLMOD array (SP-1/2). Does not decide the inactive-constraint "
-             "sentence, nor non-finite data.",
+             "moved or released CHOLMOD array (SP-1/2). Of the inactive-constraint sentence one necessary condition is decided: every term of the "
+             "objective is written in the same (T-spline) unknowns — the penalty of every other dimension carries T'T in the monotonic slot "
+             "(SG-6). Does not decide the rest of that sentence (what the solver returns when no constraint binds), nor non-finite data.",
         note=TRUST + "B-splines with non-decreasing coefficients are non-decreasing (assumed theorem); IEEE addition is monotone.",
         technique="sign-provenance classification of stores, affine index-form agreement, call-wiring rules on the C fitter"),
     "C11": dict(
